@@ -3,8 +3,18 @@
 package main
 
 import (
+	"context"
+	"errors"
 	"fmt"
+	"net"
+	"net/http"
 	"strings"
+
+	bconfig "go.minekube.com/gate/pkg/edition/bedrock/config"
+	"go.minekube.com/gate/pkg/edition/java/profile"
+	"go.minekube.com/gate/pkg/edition/java/proto/packet"
+	"go.minekube.com/gate/pkg/edition/java/proxy"
+	"go.minekube.com/gate/pkg/gate/proto"
 
 	"go.minekube.com/gate/pkg/edition/bedrock/geyser"
 	"go.minekube.com/gate/pkg/edition/bedrock/geyser/floodgate"
@@ -13,6 +23,32 @@ import (
 )
 
 type gen struct{ r *lib.Rng }
+
+// fakeInbound is the login connection of a Bedrock player as the handler sees it: only Context() matters.
+type fakeInbound struct{ ctx context.Context }
+
+func (f *fakeInbound) Protocol() proto.Protocol                { return 0 }
+func (f *fakeInbound) VirtualHost() net.Addr                   { return nil }
+func (f *fakeInbound) HandshakeIntent() packet.HandshakeIntent { return packet.LoginHandshakeIntent }
+func (f *fakeInbound) RemoteAddr() net.Addr                    { return nil }
+func (f *fakeInbound) Active() bool                            { return true }
+func (f *fakeInbound) Context() context.Context                { return f.ctx }
+
+type noNetwork struct{}
+
+func (noNetwork) RoundTrip(*http.Request) (*http.Response, error) {
+	return nil, errors.New("network disabled in the harness")
+}
+
+// appliedProfile runs the real GameProfileRequest handler for one Bedrock player under cfg.
+func appliedProfile(cfg *bconfig.Config, username string, xuid int64) (gp profile.GameProfile, panicked any) {
+	defer func() { panicked = recover() }()
+	gc := &geyser.GeyserConnection{BedrockData: &floodgate.BedrockData{Username: username, Xuid: xuid}}
+	gc.Context = geyser.VerifWithBedrockContext(context.Background(), gc)
+	e := proxy.NewGameProfileRequestEvent(&fakeInbound{ctx: gc.Context}, profile.GameProfile{Name: username}, false)
+	geyser.VerifOnGameProfile(cfg, &http.Client{Transport: noNetwork{}}, e)
+	return e.GameProfile(), nil
+}
 
 func (g gen) gamertag() (string, string) {
 	n := g.r.Range(0, 40)
@@ -75,7 +111,7 @@ func main() {
 	rng := lib.NewRng(f.Seed)
 	out := lib.NewOut("C40", f)
 	out.Imports = "From Verif Require Import Model.JavaIdentity.\n"
-	out.Rule = "gamertags of length 0..40 (alphanumeric, with spaces, punctuation, non-ASCII letters and emoji, raw bytes, broken UTF-8 pieces, boundary lengths 0/1/15/16/17/40, edge code points) x username formats (default \"_%s\", empty, bare, prefix, suffix, both, %% literals, long prefixes, non-ASCII, and formats outside the %s fragment: other verbs, widths, missing/extra operands); XUIDs: small, random 1..2^63-1, int64 extremes, negatives, neighbours n and n+1; distinct = distinct case term; non-trivial = name case whose formatted input is not already its own output, or any UUID case"
+	out.Rule = "gamertags of length 0..40 (alphanumeric, with spaces, punctuation, non-ASCII letters and emoji, raw bytes, broken UTF-8 pieces, boundary lengths 0/1/15/16/17/40, edge code points) x username formats (default \"_%s\", empty, bare, prefix, suffix, both, %% literals, long prefixes, non-ASCII, and formats outside the %s fragment: other verbs, widths, missing/extra operands); XUIDs: small, random 1..2^63-1, int64 extremes, negatives, neighbours n and n+1; the identity applied by the real onGameProfile handler (GameProfileRequestEvent after the handler, no network) for 96 (config, gamertag, XUID) triples: BackendFloodgate enabled/disabled with and without allowed servers, all username-format classes, with and without a managed-Geyser block; distinct = distinct case term; non-trivial = name case whose formatted input is not already its own output, or any UUID case"
 	g := gen{rng}
 
 	n := f.Count(1700)
@@ -147,5 +183,56 @@ func main() {
 		out.Add(lib.App("CUuid", lib.Z(x), lib.Bytes(u[:])), desc, true, "kind=uuid")
 	}
 	out.Extra("distinct_xuids", len(seen))
+
+	// the identity applied by onGameProfile under every configuration that can influence it:
+	// BackendFloodgate on/off (with and without allowed servers), username formats, managed Geyser block
+	k := f.Count(96)
+	seenCfg := map[bool]map[[16]byte]int64{false: {}, true: {}}
+	for i := 0; i < k; i++ {
+		tag, tk := g.gamertag()
+		format, fk := g.format()
+		backend := i%2 == 1
+		cfg := &bconfig.Config{UsernameFormat: format, BackendFloodgate: bconfig.BackendFloodgate{Enabled: backend}}
+		if backend && i%4 == 1 {
+			cfg.BackendFloodgate.AllowedServers = []string{"lobby", "survival"}
+		}
+		if i%8 >= 6 {
+			cfg.Managed = &bconfig.ManagedGeyser{Enabled: true}
+			cfg.GeyserListenAddr, cfg.FloodgateKeyPath = "localhost:25567", "floodgate.pem"
+		}
+		var x int64
+		switch i % 6 {
+		case 0:
+			x = int64(i/6 + 1)
+		case 1:
+			x = 1<<63 - 1 - int64(i)
+		case 2:
+			x = -int64(g.r.U64()>>1) - 1
+		default:
+			x = int64(g.r.U64()>>uint(g.r.Range(1, 30))) + 1
+		}
+		formatted := tag
+		if format != "" {
+			formatted = fmt.Sprintf(format, tag)
+		}
+		gp, pm := appliedProfile(cfg, tag, x)
+		desc := map[string]any{"kind": "applied-profile", "format": format, "gamertag_hex": fmt.Sprintf("%x", tag), "xuid": x,
+			"backend_floodgate_enabled": backend, "allowed_servers": cfg.BackendFloodgate.AllowedServers, "managed": cfg.Managed != nil,
+			"applied_name": gp.Name, "applied_uuid": gp.ID.String()}
+		if pm != nil {
+			out.GoViolation(map[string]any{"known": nil, "what": "onGameProfile panicked", "panic": fmt.Sprint(pm), "case": desc})
+			continue
+		}
+		// stable under a renamed gamertag, injective over the generated XUIDs, per configuration
+		if again, _ := appliedProfile(cfg, "Renamed "+tag, x); again.ID != gp.ID {
+			out.GoViolation(map[string]any{"known": nil, "what": "applied UUID depends on more than the XUID", "case": desc, "second": again.ID.String()})
+		}
+		if prev, dup := seenCfg[backend][gp.ID]; dup && prev != x {
+			out.GoViolation(map[string]any{"known": nil, "what": "two different XUIDs were given the same applied UUID", "case": desc, "other_xuid": prev})
+		}
+		seenCfg[backend][gp.ID] = x
+		out.Add(lib.App("CProfile", lib.Str(format), lib.Str(tag), lib.Str(formatted), lib.Z(x), lib.Bool(backend), lib.Str(gp.Name), lib.Bytes(gp.ID[:])),
+			desc, true, "kind=applied-profile", "tag="+tk, "format="+fk, fmt.Sprintf("backendFloodgate=%v", backend))
+	}
 	out.Finish()
 }
